@@ -1,68 +1,103 @@
 import YaegiVerif.Model.Debug
 import YaegiVerif.Proofs.C19Sim
 /-
-  C19 — when closures follow the edges of the graph and the two successors of every branching node
-  have different code, the node the debugger tracks is the node that executes; the debugger then
+  C19 — when closures follow the edges of the graph (forwarding closures of back edges included),
+  the node the debugger tracks is the node that executes — whatever generators made the closures:
+  the comparison is by closure object, and the objects of two successors differ; the debugger then
   behaves as the reference debugger, and the reference debugger reports exactly the marked nodes
   that execute, in order.
 -/
 namespace YaegiVerif.Proofs.C19
 open YaegiVerif.Debug
 
-theorem sep_spec (g : Graph) (h : codeSeparates g = true) (i t f : Nat)
-    (ht : g.tnext i = some t) (hf : g.fnext i = some f) (hne : t ≠ f) : g.code t ≠ g.code f := by
+/-- the identities of the closure objects of two different successors of a node are disjoint -/
+theorem idsep_spec (g : Graph) (h : idSeparates g = true) (i t f : Nat)
+    (ht : g.tnext i = some t) (hf : g.fnext i = some f) (hne : t ≠ f) (a : Nat)
+    (hat : a ∈ idsOf g t) (haf : a ∈ idsOf g f) : False := by
   unfold Graph.tnext at ht
   unfold Graph.fnext at hf
   cases hg : g[i]? with
   | none => simp [hg] at ht
   | some nd =>
     simp only [hg] at ht hf
-    unfold codeSeparates at h
+    unfold idSeparates at h
     rw [List.all_eq_true] at h
     have hmem : nd ∈ g.toList := by
       rw [Array.mem_toList_iff]
       exact Array.mem_of_getElem? hg
     have := h nd hmem
     simp only [ht, hf] at this
-    simp at this
+    simp only [Bool.or_eq_true, beq_iff_eq, List.all_eq_true, Bool.not_eq_eq_eq_not, Bool.not_true] at this
     cases this with
     | inl e => exact absurd e hne
-    | inr e => exact e
+    | inr e =>
+      have := e a hat
+      simp [haf] at this
 
-/-- the re-derivation finds the right node -/
+/-- the identity of a closure that executes node `k` is one of the identities recorded on `k` -/
+theorem succ_id_mem (g : Graph) (k : Nat) (c' : Clo) (hcode : g.code k ≠ 0)
+    (h : c' = nodeClo g k ∨ (g.fwd k ≠ 0 ∧ c'.id = g.fwd k)) : c'.id ∈ idsOf g k := by
+  unfold idsOf
+  cases h with
+  | inl e => rw [e]; simp [nodeClo, hcode]
+  | inr e => simp [e.1, e.2, hcode]
+
+/-- `isExecNode(k, c')` holds when `c'` executes `k` … -/
+theorem isExec_of_succ (F : LoopFacts) (g : Graph) (k : Nat) (c' : Clo)
+    (hI : F.byIdentity = true) (hW : F.forward = true) (hcode : g.code k ≠ 0)
+    (h : c' = nodeClo g k ∨ (g.fwd k ≠ 0 ∧ c'.id = g.fwd k)) : isExec F g (some k) c' = true := by
+  unfold isExec
+  cases h with
+  | inl e => rw [e]; simp [hI, hcode, nodeClo]
+  | inr e => simp [hI, hW, hcode, e.1, e.2]
+
+/-- … and only when the identity of `c'` is recorded on `k` -/
+theorem isExec_id_mem (F : LoopFacts) (g : Graph) (t : Nat) (c' : Clo)
+    (hI : F.byIdentity = true) (h : isExec F g (some t) c' = true) : c'.id ∈ idsOf g t := by
+  unfold isExec at h
+  unfold idsOf
+  simp only [hI, ↓reduceIte, Bool.and_eq_true, bne_iff_ne, ne_eq, Bool.or_eq_true, beq_iff_eq] at h
+  have hc : g.code t ≠ 0 := h.1
+  cases h.2 with
+  | inl e => simp [e, hc]
+  | inr e =>
+    have h0 : g.fwd t ≠ 0 := e.1.2
+    simp [h0, e.2.symm, hc]
+
+/-- the re-derivation finds the right node: same-generator successors and back edges included -/
 theorem rederive_exact (F : LoopFacts) (g : Graph) (start i : Nat) (c' : Clo)
-    (hF : F.probes = [.tnext, .fnext]) (hsep : codeSeparates g = true) (hs : IsSucc g i c') :
-    rederive F g start (some i) c'.code = some c'.owner := by
-  obtain ⟨k, hk, hcode, hedge⟩ := hs
-  subst hk
-  simp only [nodeClo]
+    (hF : F.probes = [.tnext, .fnext]) (hI : F.byIdentity = true) (hW : F.forward = true)
+    (hsep : idSeparates g = true) (hs : IsSucc g i c') :
+    rederive F g start (some i) c' = some c'.owner := by
+  obtain ⟨k, hcode, hedge, hown, hclo⟩ := hs
+  rw [hown]
+  have hk : isExec F g (some k) c' = true := isExec_of_succ F g k c' hI hW hcode hclo
+  have hidk : c'.id ∈ idsOf g k := succ_id_mem g k c' hcode hclo
   unfold rederive
   simp only [hF, List.find?]
-  by_cases h1 : isExec g (probe g i .tnext) (g.code k) = true
+  by_cases h1 : isExec F g (probe g i .tnext) c' = true
   · simp only [h1]
-    -- tnext has the code of k: it is k
     simp only [probe] at h1 ⊢
     cases ht : g.tnext i with
     | none => simp [ht, isExec] at h1
     | some t =>
-      simp only [ht, isExec, Bool.and_eq_true, bne_iff_ne, ne_eq, beq_iff_eq] at h1
+      rw [ht] at h1
       by_cases htk : t = k
       · rw [htk]
       · cases hedge with
         | inl e => rw [ht] at e; exact absurd (Option.some.inj e) htk
-        | inr e => exact absurd h1.2 (sep_spec g hsep i t k ht e htk)
+        | inr e => exact (idsep_spec g hsep i t k ht e htk c'.id (isExec_id_mem F g t c' hI h1) hidk).elim
   · simp only [h1]
     have hnt : g.tnext i ≠ some k := by
       intro e
       apply h1
-      simp [probe, e, isExec, hcode]
+      simp only [probe, e]
+      exact hk
     have hf : g.fnext i = some k := by
       cases hedge with
       | inl e => exact absurd e hnt
       | inr e => exact e
-    have h2 : isExec g (some k) (g.code k) = true := by
-      simp [isExec, hcode]
-    simp [h2, probe, hf]
+    simp [probe, hf, hk]
 
 /-- every live activation tracks the node that owns its closure -/
 def TrackOk (_g : Graph) (d : DCfg σ) : Prop :=
@@ -75,8 +110,8 @@ theorem entry_owner (g : Graph) (s : Nat) (e : Clo) (h : some e = entryClo g s) 
   · simp only [Option.some.injEq] at h; rw [h]; rfl
 
 theorem dapply_track (S : Setup) (P : Prog σ) (d : DCfg σ) (st : σ) (c : Clo) (r : Bool)
-    (hF : S.F.probes = [.tnext, .fnext]) (hx : S.F.execFirst = false)
-    (hsep : codeSeparates S.g = true) (hR : Respects S.g P)
+    (hF : S.F.probes = [.tnext, .fnext]) (hI : S.F.byIdentity = true) (hW : S.F.forward = true)
+    (hx : S.F.execFirst = false) (hsep : idSeparates S.g = true) (hR : Respects S.g P)
     (hc : ∀ fr rest, d.stack = fr :: rest → fr.cur = c)
     (h : TrackOk S.g d) : TrackOk S.g (dapply S d (P.step st c r).2) := by
   have hr := hR st c r
@@ -113,7 +148,7 @@ theorem dapply_track (S : Setup) (P : Prog σ) (d : DCfg σ) (st : σ) (c : Clo)
         | inl e =>
           rw [e]; simp only
           rw [hfr, hcur]
-          exact rederive_exact S.F S.g fr.start c.owner c' hF hsep hr
+          exact rederive_exact S.F S.g fr.start c.owner c' hF hI hW hsep hr
         | inr e => exact hrest x e
     | call s e =>
       rw [ha] at hr
@@ -135,8 +170,8 @@ theorem trackOk_of (g : Graph) (d d' : DCfg σ) (h : TrackOk g d) (hs : d'.stack
   unfold TrackOk at *; rw [hs]; exact h
 
 theorem dstep_track (S : Setup) (P : Prog σ) (d : DCfg σ)
-    (hF : S.F.probes = [.tnext, .fnext]) (hx : S.F.execFirst = false)
-    (hsep : codeSeparates S.g = true) (hR : Respects S.g P)
+    (hF : S.F.probes = [.tnext, .fnext]) (hI : S.F.byIdentity = true) (hW : S.F.forward = true)
+    (hx : S.F.execFirst = false) (hsep : idSeparates S.g = true) (hR : Respects S.g P)
     (h : TrackOk S.g d) : TrackOk S.g (dstep S P d) := by
   unfold dstep
   cases hc : d.ctl with
@@ -145,11 +180,11 @@ theorem dstep_track (S : Setup) (P : Prog σ) (d : DCfg σ)
     simp only
     cases hs : d.stack with
     | nil =>
-      apply dapply_track S P _ d.st baseClo true hF hx hsep hR
+      apply dapply_track S P _ d.st baseClo true hF hI hW hx hsep hR
       · intro fr rest e; simp at e
       · exact trackOk_of S.g d _ h hs.symm
     | cons fr rest =>
-      apply dapply_track S P _ d.st fr.cur true hF hx hsep hR
+      apply dapply_track S P _ d.st fr.cur true hF hI hW hx hsep hR
       · intro fr' rest' e
         simp only [List.cons.injEq] at e
         rw [← e.1]
@@ -165,19 +200,19 @@ theorem dstep_track (S : Setup) (P : Prog σ) (d : DCfg σ)
         intro x hx'
         exact h x (by rw [hs]; exact List.mem_cons_of_mem _ hx')
       · simp only [hq, Bool.false_eq_true, ↓reduceIte]
-        apply dapply_track S P _ d.st fr.cur false hF hx hsep hR
+        apply dapply_track S P _ d.st fr.cur false hF hI hW hx hsep hR
         · intro fr' rest' e
           simp only [hf.2.1, hs, List.cons.injEq] at e
           rw [← e.1]
         · exact trackOk_of S.g d _ h (by simp only [hf.2.1])
 
 theorem drun_track (S : Setup) (P : Prog σ) (n : Nat) (d : DCfg σ)
-    (hF : S.F.probes = [.tnext, .fnext]) (hx : S.F.execFirst = false)
-    (hsep : codeSeparates S.g = true) (hR : Respects S.g P)
+    (hF : S.F.probes = [.tnext, .fnext]) (hI : S.F.byIdentity = true) (hW : S.F.forward = true)
+    (hx : S.F.execFirst = false) (hsep : idSeparates S.g = true) (hR : Respects S.g P)
     (h : TrackOk S.g d) : TrackOk S.g (drun S P n d) := by
   induction n generalizing d with
   | zero => exact h
-  | succ n ih => exact ih _ (dstep_track S P d hF hx hsep hR h)
+  | succ n ih => exact ih _ (dstep_track S P d hF hI hW hx hsep hR h)
 
 /-! ### the debugger coincides with the reference debugger -/
 
@@ -210,15 +245,15 @@ theorem dstep_ideal (S : Setup) (P : Prog σ) (d : DCfg σ) (hi : S.ideal = fals
       · exact dapply_ideal S _ _ hx
 
 theorem drun_ideal (S : Setup) (P : Prog σ) (n : Nat) (d : DCfg σ) (hi : S.ideal = false)
-    (hF : S.F.probes = [.tnext, .fnext]) (hx : S.F.execFirst = false)
-    (hsep : codeSeparates S.g = true) (hR : Respects S.g P)
+    (hF : S.F.probes = [.tnext, .fnext]) (hI : S.F.byIdentity = true) (hW : S.F.forward = true)
+    (hx : S.F.execFirst = false) (hsep : idSeparates S.g = true) (hR : Respects S.g P)
     (h : TrackOk S.g d) : drun S.toIdeal P n d = drun S P n d := by
   induction n generalizing d with
   | zero => rfl
   | succ n ih =>
     simp only [drun]
     rw [dstep_ideal S P d hi hx h]
-    exact ih _ (dstep_track S P d hF hx hsep hR h)
+    exact ih _ (dstep_track S P d hF hI hW hx hsep hR h)
 
 /-! ### what the reference debugger reports -/
 
